@@ -584,7 +584,7 @@ def check(src, rep, tier):
                        '(relation algebra) in addition every derivation method is interpreted over relation expressions (R, inverse, restriction) with '
                        'dictionary/set ownership tags, which decides the paired-assignment obligation for all relations; methods outside that vocabulary '
                        'are only covered by the generic relation (noted).')
-    rep.not_decided = ['re-insertion of an existing package', 'pickle round trip', 'equality with a reference relation for arbitrary histories']
+    rep.not_decided = ['pickle round trip', 'equality with a reference relation for arbitrary histories']
     rep.need('C20.R1', 20)
     rep.need('C20.R3', 4)
     rep.need('C20.R4', 20)
